@@ -37,6 +37,9 @@ def run(ctx):
     check_name_types(ctx, V)
     check_lookups(ctx)
     check_alias(ctx)
+    from .. import rules_tree as RT2
+    ctx.rule('R12.5', 'grouping is total: no size/depth cut-off in the drivers and passes this property relies on', floor=1)
+    RT2.check_no_cutoff(ctx, 'R12.5', only={'_group', 'group_period', 'group_as', 'group_aliased', 'group_identifier'})
 
 
 def check_remove_quotes(ctx):
